@@ -293,10 +293,13 @@ type c15IDsK []int64
 type c15AttrsK map[string]string
 type c15ArrK [4]int32
 type c15PtrHolderK struct{ P *int }
+type c15U8K uint8
+type c15U32K uint32
+type c15NullK struct{}
 
 func c15registeredKinds(c *core.Ctx) {
 	for gen := 1; gen <= 2; gen++ {
-		for _, x := range []any{c15RawK(nil), c15StrK(""), c15IntK(0), c15FloatK(0), c15BoolK(false), c15IDsK(nil), c15AttrsK(nil), c15ArrK{}, c15PtrHolderK{}} {
+		for _, x := range []any{c15RawK(nil), c15StrK(""), c15IntK(0), c15FloatK(0), c15BoolK(false), c15IDsK(nil), c15AttrsK(nil), c15ArrK{}, c15PtrHolderK{}, c15U8K(0), c15U32K(0)} {
 			k := reflect.TypeOf(x)
 			tag := fmt.Sprintf("c15-kind-%s-%d", k.Name(), gen)
 			base := []string{"string", "long", "bytes", "double"}[(len(k.Name())+gen)%4]
@@ -332,9 +335,35 @@ func c15registeredKinds(c *core.Ctx) {
 	}
 }
 
+// a type whose registered schema is null: whatever schema generation puts around it stays structurally valid
+func c15registeredNull(c *core.Ctx) {
+	avro.RegisterSchema(reflect.TypeOf(c15NullK{}), avro.Schema{Type: "null"})
+	type holder struct {
+		A  c15NullK   `json:"a"`
+		P  *c15NullK  `json:"p"`
+		O  c15NullK   `json:"o,omitempty"`
+		S  []c15NullK `json:"s"`
+		SP []*c15NullK
+		M  map[string]*c15NullK
+	}
+	c.Eval(1)
+	s, err := avro.SchemaForType(holder{})
+	if err != nil {
+		c.Count("registered-null-refused", 1) // an error is a permitted answer
+		return
+	}
+	ir := libToIR(s)
+	if err := ir.Validate(); err != nil {
+		c.Violate("validity", fmt.Sprintf("a type registered with the schema null, used behind pointers and under omitempty: the generated schema is not structurally valid: %v\n schema %s", err, ir.JSON()), nil)
+		return
+	}
+	c.Count("registered-null-scenarios-ok", 1)
+}
+
 func c15registration(c *core.Ctx) {
 	c15registeredUnion(c)
 	c15registeredKinds(c)
+	c15registeredNull(c)
 	get := func() *refavro.Schema {
 		s, err := avro.SchemaForType(c15Outer{})
 		if err != nil {
